@@ -47,6 +47,8 @@ def gen_cases(tier, seed):
     # consumers race for fewer items than there are consumers, the losers stay blocked, then the stop is requested
     for i in range(6 if tier == 'quick' else 100):
         cases.append({'kind': 'stop', 'moment': 'race', 'n': rng.choice([2, 3, 4]), 'items': rng.choice([1, 1, 2]), 'rounds': 5 if tier == 'quick' else 12, 'seed': rng.randrange(1 << 30)})
+    cases.append({'kind': 'early-put', 'when': 'before-consumption'})
+    cases.append({'kind': 'early-put', 'when': 'after-consumption'})
     for i in range(4 if tier == 'quick' else 60):
         cases.append({'kind': 'processes', 'm': rng.choice([1, 2]), 'n': rng.choice([2, 3]), 'items': rng.choice([5, 40]), 'rounds': 2, 'pkind': ['queue', 'simple', 'stoppable', 'queue'][i % 4],
                       'seed': rng.randrange(1 << 30)})
@@ -394,7 +396,47 @@ def run_processes(case):
             'sample': {'kind': 'processes', 'suppliers': m, 'consumers': n, 'items': len(exp), 'per_consumer': [len(g) for _, _, g in got]}}
 
 
+def run_early_put(case):
+    """The docstring of put_end allows a supplier to put items of the NEXT round after its put_end and before the consumer's renew
+    ("not accessible ... until the consumer has called renew").  Deterministic, single thread."""
+    import mpservice.queue as MQ
+
+    viol = []
+    obs = {'runs': 1, 'early_put_runs': 1, 'rounds': 0, 'items_delivered': 0}
+    q = MQ.IterableQueue(_queue.Queue(), num_suppliers=1)
+    when = case['when']
+    q.put(('r0', 0))
+    q.put_end()
+    if when == 'before-consumption':
+        q.put(('r1', 'early'))
+    got0 = list(q)
+    if when == 'after-consumption':
+        q.put(('r1', 'early'))
+    err = None
+    got1 = None
+    try:
+        q.renew()
+        q.put(('r1', 'late'))
+        q.put_end()
+        got1 = watch.run_bounded(lambda: list(q), 10, 'second round')
+    except watch.Hang:
+        err = 'second round never ended'
+    except Exception as e:  # noqa: BLE001
+        err = repr(e)
+    obs['rounds'] = 2
+    obs['items_delivered'] = len(got0) + len(got1 or [])
+    if got0 != [('r0', 0)]:
+        viol.append({'mech': 'iterq/item-from-another-round', 'msg': f'round 0 delivered {got0!r}; an item put after put_end belongs to the next round'})
+    if err is not None or got1 != [('r1', 'early'), ('r1', 'late')]:
+        mech = 'iterq/early-put-for-next-round-breaks-renew' if when == 'before-consumption' and (err or '').startswith('RuntimeError') and 'expecting None' in (err or '') else 'iterq/next-round-wrong-after-early-put'
+        viol.append({'mech': mech, 'msg': f'supplier put an item for the next round {when.replace("-", " ")} of round 0 (allowed by the docstring of put_end): renew / round 1 gave error={err} items={got1!r}; '
+                     f"expected round 1 = [('r1','early'), ('r1','late')]"})
+    return {'violations': viol, 'obs': obs, 'nontrivial': True, 'sig': repr(('early-put', when)), 'sample': {'kind': 'early-put', 'when': when, 'round0': repr(got0), 'round1': repr(got1), 'error': err}}
+
+
 def run_case(case):
+    if case['kind'] == 'early-put':
+        return run_early_put(case)
     if case['kind'] == 'threads':
         return run_threads(case)
     if case['kind'] == 'stop':
